@@ -497,8 +497,19 @@ class Interp(object):
         rs = np.random.RandomState(int(op["seed"]))
         W = []
         for n in self.lay["Nr"]:
-            ns = n if kind == "square" else 1 + int(rs.randint(n))
-            W.append(_randc(rs, n, ns))
+            ns = n if kind.startswith("square") else 1 + int(rs.randint(n))
+            if kind == "square_mixed":
+                # receivers with a real-valued filter (identity = "no
+                # filtering for this one", or real weights) next to
+                # receivers with a complex one
+                t = int(rs.randint(3))
+                w = _randc(rs, n, ns)
+                W.append(np.eye(n) if t == 0 else
+                         (np.ascontiguousarray(w.real) if t == 1 else w))
+            else:
+                W.append(_randc(rs, n, ns))
+        if kind == "square_mixed":
+            self.ctx.label("post_filter:real_and_complex_receivers")
         arg = _obj_array([w.copy() for w in W]) if op.get("as_array") \
             else [w.copy() for w in W]
         self._lib(self.tags(op="post_filter"), self.obj.set_post_filter, arg)
@@ -845,7 +856,8 @@ def _ops_st(tier, cls):
     noise = fixed(op=st.just("noise_var"),
                   value=st.sampled_from([None, 0.0, 1e-3, 0.5, 4.0]))
     filt = fixed(op=st.just("post_filter"),
-                 kind=st.sampled_from(["square", "square", "rect", "none"]),
+                 kind=st.sampled_from(["square", "square", "square_mixed",
+                                       "rect", "none"]),
                  seed=seeds, as_array=st.booleans())
     read = fixed(op=st.just("read"),
                  views=st.lists(st.sampled_from(views), min_size=1,
@@ -989,8 +1001,8 @@ def _make_machine(case, ctx, sink):
         def noise_var(self, value):
             self._do(dict(op="noise_var", value=value))
 
-        @rule(kind=st.sampled_from(["square", "rect"]), seed=seeds,
-              as_array=st.booleans())
+        @rule(kind=st.sampled_from(["square", "square_mixed", "rect"]),
+              seed=seeds, as_array=st.booleans())
         def set_filter(self, kind, seed, as_array):
             self._do(dict(op="post_filter", kind=kind, seed=seed,
                           as_array=as_array))
